@@ -251,8 +251,8 @@ fn check(ctx: &mut Ctx, f: Fmt, nd: &ND, kind: &str, seed: u64) {
     ctx.report.bump(&format!("spacing.{}", if kind.starts_with("after:") { "first-work-of-a-fresh-thread" } else { kind.split(':').next().unwrap_or(kind) }));
     ctx.report.bump(&format!("format.{}", f.name()));
     // one case in 61 is repeated as the first work of a fresh thread that started in another format
-    if !kind.starts_with("after:") && seed % 61 == 0 {
-        let g = ["none", "ascii", "latex", "han"][((seed / 61) % 4) as usize];
+    if !kind.starts_with("after:") && ctx.report.evaluations % 61 == 0 {
+        let g = ["none", "ascii", "latex", "han"][((ctx.report.evaluations / 61) % 4) as usize];
         check(ctx, f, nd, &format!("after:{}|{}", g, kind), seed);
     }
     let r = case_failure(f, nd, kind, seed);
